@@ -355,6 +355,7 @@ struct Acc<Sc> {
     faults: BTreeMap<&'static str, u64>,
     probes: BTreeMap<&'static str, u64>,
     sigs: HashSet<u64>,
+    sigs_capped: bool,
     batch_digest: u64,
     found: BTreeMap<String, Found<Sc>>,
     samples: Vec<(u64, Value)>,
@@ -371,6 +372,7 @@ impl<Sc> Acc<Sc> {
             faults: BTreeMap::new(),
             probes: BTreeMap::new(),
             sigs: HashSet::new(),
+            sigs_capped: false,
             batch_digest: 0,
             found: BTreeMap::new(),
             samples: Vec::new(),
@@ -400,7 +402,12 @@ fn record<P: Property>(
     }
     if out.ctx.nontrivial {
         acc.nontrivial_runs += 1;
-        acc.sigs.insert(out.ctx.sched);
+        // memory bound: beyond 3M signatures per worker the count becomes a lower bound
+        if acc.sigs.len() < 3_000_000 {
+            acc.sigs.insert(out.ctx.sched);
+        } else {
+            acc.sigs_capped = true;
+        }
         if acc.samples.len() < 3 {
             acc.samples
                 .push((run * 1_000_000 + sub, serde_json::to_value(sc).unwrap_or(Value::Null)));
@@ -640,6 +647,7 @@ pub fn run_batch<P: Property>(p: &P, opts: &Opts) -> BatchReport {
             *tot.probes.entry(k).or_insert(0) += v;
         }
         tot.sigs.extend(a.sigs);
+        tot.sigs_capped |= a.sigs_capped;
         tot.batch_digest ^= a.batch_digest;
         tot.samples.extend(a.samples);
         for (k, f) in a.found {
@@ -857,6 +865,7 @@ pub fn run_batch<P: Property>(p: &P, opts: &Opts) -> BatchReport {
             "components": { "real": p.components_real(), "stub": p.components_stub() },
             "known_findings_matched": known_lines.len(),
             "batch_digest": format!("{:016x}", tot.batch_digest),
+            "distinct_nontrivial_is_lower_bound": tot.sigs_capped,
             "workers": opts.workers,
             "exhaustive": false,
         });
@@ -1353,4 +1362,111 @@ pub fn prefix_child(id: &str, seed: u64, tier: Tier, upto: u64) -> Option<(u64, 
         }
     }
     None
+}
+
+// ---------------------------------------------------------------------------
+// Crash search: when a batch kills the process (stack exhaustion, abort), the
+// wrapper re-invokes `pkgsim <ID> --find-crash`, which executes the batch in
+// child processes by ranges and bisects to the single run that kills it.
+// ---------------------------------------------------------------------------
+
+/// Child mode: execute runs from..to (exclusive) sequentially, ignore ordinary
+/// violations (the normal batch reports those), exit 0.
+pub fn range_exec_main<P: Property>(p: &P, seed: u64, tier: Tier, from: u64, to: u64) -> i32 {
+    for run in from..to {
+        let mut rng = Rng::new(run_seed(seed, p.id(), run));
+        let sc = p.generate(&mut rng, run, tier);
+        let _ = exec_one(p, &sc, false);
+        for s2 in p.sweep(&sc, run, tier) {
+            let _ = exec_one(p, &s2, false);
+        }
+    }
+    0
+}
+
+fn range_child(id: &str, seed: u64, tier: Tier, from: u64, to: u64, limit: std::time::Duration) -> Option<i32> {
+    // None = finished normally; Some(code) = killed / crashed / timed out (-1)
+    let exe = std::env::current_exe().ok()?;
+    let mut child = std::process::Command::new(exe)
+        .arg(id)
+        .arg("--exec-range")
+        .arg(format!("{}:{}:{}:{}", seed as i64, tier.name(), from, to))
+        .stdout(std::process::Stdio::null())
+        .stderr(std::process::Stdio::null())
+        .spawn()
+        .ok()?;
+    let t = Instant::now();
+    loop {
+        match child.try_wait() {
+            Ok(Some(st)) => {
+                if st.success() {
+                    return None;
+                }
+                use std::os::unix::process::ExitStatusExt;
+                return Some(st.signal().map(|s| 128 + s).or(st.code()).unwrap_or(-2));
+            }
+            Ok(None) => {
+                if t.elapsed() > limit {
+                    let _ = child.kill();
+                    let _ = child.wait();
+                    return Some(-1);
+                }
+                std::thread::sleep(std::time::Duration::from_millis(10));
+            }
+            Err(_) => return Some(-2),
+        }
+    }
+}
+
+pub fn find_crash<P: Property>(p: &P, opts: &Opts) -> i32 {
+    let runs = opts.runs_override.unwrap_or_else(|| p.runs(opts.tier));
+    let id = p.id();
+    println!("pkgsim {}: the batch killed the process; searching for the run that does it ({} runs, in child processes)", id, runs);
+    let chunk: u64 = 2000;
+    let limit = std::time::Duration::from_secs(600);
+    let mut from = 0u64;
+    while from < runs {
+        let to = (from + chunk).min(runs);
+        if let Some(code) = range_child(id, opts.seed, opts.tier, from, to, limit) {
+            // bisect inside [from, to)
+            let (mut lo, mut hi) = (from, to);
+            while hi - lo > 1 {
+                let mid = lo + (hi - lo) / 2;
+                if range_child(id, opts.seed, opts.tier, lo, mid, limit).is_some() {
+                    hi = mid;
+                } else {
+                    lo = mid;
+                }
+            }
+            let run = lo;
+            let mut rng = Rng::new(run_seed(opts.seed, id, run));
+            let base = p.generate(&mut rng, run, opts.tier);
+            // which of the run's scenarios (base or a sweep) does it?
+            let mut cands: Vec<(u64, P::Sc)> = vec![(0, base.clone())];
+            for (i, s2) in p.sweep(&base, run, opts.tier).into_iter().enumerate() {
+                cands.push((i as u64 + 1, s2));
+            }
+            for (sub, sc) in cands {
+                match exec_in_child(p, &sc, std::time::Duration::from_secs(60)) {
+                    ChildRes::Crashed(c) => {
+                        report_crash(p, opts, run, sub, &sc, c);
+                        return 1;
+                    }
+                    ChildRes::TimedOut => {
+                        report_hang(p, opts, run, sub, &sc, 3000);
+                        return 1;
+                    }
+                    _ => {}
+                }
+            }
+            eprintln!(
+                "pkgsim: harness error: runs {}..{} kill a child process (status {}) but no single scenario of run {} does",
+                from, to, code, run
+            );
+            return 2;
+        }
+        from = to;
+    }
+    eprintln!("pkgsim: harness error: the batch killed the process but no range of runs does so in a child process");
+    2
 }
